@@ -62,6 +62,9 @@ var c01Inputs = []moduleInput{
 	{"unnamed structs with tagged / embedded fields in signatures, variables and containers", map[string]string{
 		"chk/chk.go": "package chk\n\nimport (\n\t\"example.org/m/p\"\n\t\"example.org/m/p/generated\"\n)\n\nvar _ p.C = &generated.CImpl{}\n",
 		"p/conv.go":   "package p\n\ntype Meta struct{ ID int }\ntype In struct {\n\tItems []struct {\n\t\tMeta `json:\",inline\"`\n\t\tName string `json:\"name\"`\n\t}\n\tByKey map[string]struct {\n\t\t*Meta `bson:\",inline\"`\n\t\tN int\n\t}\n}\ntype Out struct {\n\tItems []struct {\n\t\tMeta `json:\",inline\"`\n\t\tName string `json:\"name\"`\n\t}\n\tByKey map[string]struct {\n\t\t*Meta `bson:\",inline\"`\n\t\tN int\n\t}\n}\n\n// goverter:converter\ntype C interface {\n\tConv(source In) Out\n\tOne(source struct {\n\t\tMeta `json:\",inline\"`\n\t\tA int `json:\"a\"`\n\t}) struct {\n\t\tMeta `json:\",inline\"`\n\t\tA int `json:\"a\"`\n\t}\n}\n"}, []string{"./p"}, nil},
+	{"early error returns of methods with a non-nillable result (pointer source with useZeroValueOnPointerInconsistency, struct / basic / named results, nested helpers)", map[string]string{
+		"chk/chk.go": "package chk\n\nimport (\n\t\"example.org/m/p\"\n\t\"example.org/m/p/generated\"\n)\n\nvar _ p.C = &generated.CImpl{}\n",
+		"p/conv.go":   "package p\n\nimport \"strconv\"\n\ntype In struct{ A string }\ntype Out struct{ A int }\ntype Wrap struct{ I *In; L []*In }\ntype WrapOut struct{ I Out; L []Out }\ntype Num int\n\nfunc Atoi(s string) (int, error) { return strconv.Atoi(s) }\nfunc ToNum(s string) (Num, error) { i, err := strconv.Atoi(s); return Num(i), err }\n\n// goverter:converter\n// goverter:extend Atoi ToNum\n// goverter:useZeroValueOnPointerInconsistency\ntype C interface {\n\tConv(s *In) (Out, error)\n\tNested(s Wrap) (WrapOut, error)\n\tBasic(s *string) (int, error)\n\tNamed(s *string) (Num, error)\n\tPlain(s In) (Out, error)\n\tPtr(s *In) (*Out, error)\n}\n"}, []string{"./p"}, nil},
 	{"converter method named like a generated helper", map[string]string{
 		"p/conv.go": "package p\n\ntype In struct{ A int }\ntype Out struct{ A int }\n\n// goverter:converter\ntype C interface {\n\tPInToPOut(s []In) []Out\n\tConv(s []*In) []*Out\n}\n"}, []string{"./p"}, nil},
 }
